@@ -7,7 +7,7 @@ TARGETS = ["Base/Num.vo", "Base/Corr.vo", "C07/Model.vo", "C07/ModelNewton.vo", 
            "C07/ExamplesNewtonMin.vo", "C07/ModelSaga.vo", "C07/SpecSaga.vo", "C07/ProofsSaga.vo", "C07/ExamplesSaga.vo", "C07/ModelSagaJit.vo", "C07/ProofsSagaJit.vo", "C07/ExamplesSagaJit.vo", "C07/ModelBlahut.vo", "C07/ProofsBlahut.vo", "C07/ModelAdamGeneric.vo", "C07/ProofsAdamGeneric.vo",
            "C07/ProofsQuad.vo", "C07/ProofsBase.vo",
            "C07/ProofsRprop.vo", "C07/ProofsGD.vo", "C07/ProofsLS.vo", "C07/ProofsBfgs.vo", "C07/ProofsDense.vo", "C07/ProofsAdam.vo",
-           "C07/Proofs.vo", "C07/Refuted.vo", "C07/Props.vo"]
+           "C07/Proofs.vo", "C07/Refuted.vo", "C07/ProofsR7.vo", "C07/Props.vo"]
 PROPS = ["C07/Props.v"]
 CORPUS = os.path.join(vlib.ROOT, "corpus/C07/corpus.jsonl")
 PARTIAL = ("Theorems are about the hand-written oracle-machine models in coq/C07/Model*.v; the objective (through AD), "
@@ -30,6 +30,11 @@ PARTIAL = ("Theorems are about the hand-written oracle-machine models in coq/C07
            "Constraint clause: proved for rprop, rprop_dense, adam_dense, adam.Run (cap included since fix d91fb9b), "
            "newton_root, newton_min back-tracking; "
            "_partial/refuted for lineSearch zoom (F-LS-ZOOM-CONS, also reaches bfgs) and RunMin (F-NEWTON-MIN-CONS-LINE). "
+           "Round 7: the statement 'Norm(g) < eps bounds every coordinate, for every length' and the fixed-point / closed-form "
+           "statements for saga's built-in Tikhonov and L1 options are over R only (binary64: replayed, dimensions 1..12 resp. "
+           "the sagareg stream); L2Regularization's group soft threshold has no fixed-point theorem; that saga CONVERGES to the "
+           "regularised minimiser is not proved: the hunt checks it on well conditioned least squares (KKT residual at the "
+           "converged return, closed form in 1-D, and bit-equality with the explicit ProximalOperator twin). "
            "All theorems are fuel-relative (they hold for every fuel and say "
            "nothing when the model returns OutOfFuel): loops WITHOUT an iteration cap in the code are listed in "
            "'uncapped_loops' (hang findings are C20's).")
@@ -142,7 +147,7 @@ def run(ctx):
         ctx.violation({"obligation": "build of harness/c07 against " + vlib.REPO, "log": blog[-3000:]}, False,
                       "tie lost: the C07 harness no longer builds against the library")
         return
-    n = 780 if ctx.tier == "quick" else 5200   # of 13 runs: 3 newton_root, 2 newton_min, 2 saga, 1 blahut, 5 round-1 routines + adam.Run
+    n = 780 if ctx.tier == "quick" else 5200   # of 13 runs: 3 newton_root, 2 newton_min, 2 saga, 1 blahut, 5 round-1 routines + adam.Run; the harness appends the round-7 streams (60 normdim + 24 sagareg; x4 in thorough)
     bad = corr(ctx, binary, n)
     known = known_sites()
     h = hunt(ctx, binary, bad)
